@@ -25,9 +25,8 @@ Next == /\ l <= Len(Trace)
              ELSE IF e.hdr = 0
                   THEN amf' = amf /\ out' = Append(out, [ev |-> "Dec", id |-> e.id, hist |-> e.hist, hdr |-> 0, plain |-> e.plain,
                                                         pdu |-> e.plain, count |-> 0])
-                  ELSE LET a0 == [amf EXCEPT !.dl = (amf.dl + e.skip) % S!CountMod]
-                           r == S!Protect(a0, e.plain, e.hdr, S!NewCtxHdr(e.hdr), S!DirDown)
-                       IN /\ amf' = r.sec
+                  ELSE \E r \in {S!Protect([amf EXCEPT !.dl = (amf.dl + e.skip) % S!CountMod], e.plain, e.hdr, S!NewCtxHdr(e.hdr), S!DirDown)} :
+                          /\ amf' = r.sec
                           /\ out' = Append(out, [ev |-> "Dec", id |-> e.id, hist |-> e.hist, hdr |-> e.hdr, plain |-> e.plain,
                                                  pdu |-> Wire(r.pdu), count |-> r.count])
         /\ l' = l + 1
